@@ -19,7 +19,7 @@ macro "leaves" : tactic => `(tactic| (
 set_option hygiene false in
 /-- instructions of kind `simple p q` whose pops are plain pop / pop2 -/
 macro "simple_tac" : tactic => `(tactic| (
-  intro succs hs
+  intro hR hlt succs hs
   obtain ⟨htop, rfl⟩ := sstep_simple hs
   simp only [skOfFrame] at htop
   simp only [exec]
@@ -63,12 +63,12 @@ macro "arith" : tactic => `(tactic| first | rfl | omega | (simp only [skOfFrame]
 omit hsub
 
 theorem exec_halt : Goal sub g f wod dc .halt := by
-  intro succs hs; simp only [exec, Post]
+  intro hR hlt succs hs; simp only [exec, Post]
 theorem exec_ret : Goal sub g f wod dc .ret := by
-  intro succs hs; simp only [exec, Post]
+  intro hR hlt succs hs; simp only [exec, Post]
 
 theorem exec_store (n : String) : Goal sub g f wod dc (.store n) := by
-  intro succs hs
+  intro hR hlt succs hs
   obtain ⟨htop, rfl⟩ := sstep_peek hs
   simp only [skOfFrame] at htop
   simp only [exec]
@@ -86,7 +86,7 @@ theorem target_eq {size pc : Nat} {o : Int} {t : Nat} (h : target size pc (some 
     exact ⟨by omega, h⟩
 
 theorem exec_jmp (off : Option Int) : Goal sub g f wod dc (.jmp off) := by
-  intro succs hs
+  intro hR hlt succs hs
   obtain ⟨t, ht, rfl⟩ := sstep_jmp hs
   simp only [skOfFrame] at ht
   cases off with
@@ -96,11 +96,11 @@ theorem exec_jmp (off : Option Int) : Goal sub g f wod dc (.jmp off) := by
     simp only [exec]
     have e : ((f.pc + 1 : Nat) : Int) + o = (f.pc : Int) + 1 + o := by omega
     simp only [e, h1, if_false, Post]
-    (refine ⟨_, List.mem_singleton.mpr rfl, match_of_sameBut (sameBut_refl _) _ (by simp only [skOfFrame]; omega) rfl rfl rfl rfl rfl, ?_⟩; first | trivial | rfl | exact (sameBut_refl _).code)
+    (refine ⟨_, List.mem_singleton.mpr rfl, match_of_sameBut (sameBut_refl _) _ (by simp only [skOfFrame]; omega) rfl rfl rfl rfl rfl, ?_⟩; fin_sb (sameBut_refl _))
 
 
 theorem exec_jne (off : Option Int) : Goal sub g f wod dc (.jne off) := by
-  intro succs hs
+  intro hR hlt succs hs
   obtain ⟨htop, t, ht, rfl⟩ := sstep_jne hs
   simp only [skOfFrame] at ht htop
   cases off with
@@ -112,12 +112,12 @@ theorem exec_jne (off : Option Int) : Goal sub g f wod dc (.jne off) := by
     have e : ((f.pc + 1 : Nat) : Int) + o = (f.pc : Int) + 1 + o := by omega
     split
     · simp only [e, h1, if_false, Post]
-      (refine ⟨_, List.mem_cons_of_mem _ (List.mem_singleton.mpr rfl), match_of_sameBut (sameBut_refl _) _ (by simp only []; omega) rfl rfl rfl rfl rfl, ?_⟩; first | trivial | rfl | exact (sameBut_refl _).code)
+      (refine ⟨_, List.mem_cons_of_mem _ (List.mem_singleton.mpr rfl), match_of_sameBut (sameBut_refl _) _ (by simp only []; omega) rfl rfl rfl rfl rfl, ?_⟩; fin_sb (sameBut_refl _))
     · simp only [Post]
-      (refine ⟨_, List.mem_cons_self, match_of_sameBut (sameBut_refl _) _ rfl rfl rfl rfl rfl rfl, ?_⟩; first | trivial | rfl | exact (sameBut_refl _).code)
+      (refine ⟨_, List.mem_cons_self, match_of_sameBut (sameBut_refl _) _ rfl rfl rfl rfl rfl rfl, ?_⟩; fin_sb (sameBut_refl _))
 
 theorem exec_je (off : Option Int) : Goal sub g f wod dc (.je off) := by
-  intro succs hs
+  intro hR hlt succs hs
   obtain ⟨htop, t, ht, rfl⟩ := sstep_je hs
   simp only [skOfFrame] at ht htop
   cases off with
@@ -129,12 +129,12 @@ theorem exec_je (off : Option Int) : Goal sub g f wod dc (.je off) := by
     have e : ((f.pc + 1 : Nat) : Int) + o = (f.pc : Int) + 1 + o := by omega
     split
     · simp only [e, h1, if_false, Post]
-      (refine ⟨_, List.mem_cons_of_mem _ (List.mem_singleton.mpr rfl), match_of_sameBut (sameBut_refl _) _ (by simp only []; omega) rfl rfl rfl rfl rfl, ?_⟩; first | trivial | rfl | exact (sameBut_refl _).code)
+      (refine ⟨_, List.mem_cons_of_mem _ (List.mem_singleton.mpr rfl), match_of_sameBut (sameBut_refl _) _ (by simp only []; omega) rfl rfl rfl rfl rfl, ?_⟩; fin_sb (sameBut_refl _))
     · simp only [Post]
-      (refine ⟨_, List.mem_cons_self, match_of_sameBut (sameBut_refl _) _ rfl rfl rfl rfl rfl rfl, ?_⟩; first | trivial | rfl | exact (sameBut_refl _).code)
+      (refine ⟨_, List.mem_cons_self, match_of_sameBut (sameBut_refl _) _ rfl rfl rfl rfl rfl rfl, ?_⟩; fin_sb (sameBut_refl _))
 
 theorem exec_jeDup (off : Option Int) : Goal sub g f wod dc (.jeDup off) := by
-  intro succs hs
+  intro hR hlt succs hs
   obtain ⟨htop, t, ht, rfl⟩ := sstep_jeDup hs
   simp only [skOfFrame] at ht htop
   cases off with
@@ -149,45 +149,47 @@ theorem exec_jeDup (off : Option Int) : Goal sub g f wod dc (.jeDup off) := by
       split
       · simp only [Post]
         have sb := push_ok_inv ‹Frame.push _ _ = Res.ok _›
-        (refine ⟨_, List.mem_cons_of_mem _ (List.mem_singleton.mpr rfl), match_of_sameBut sb _ (by simp only []; omega) (by simp only [skOfFrame]; omega) rfl rfl rfl rfl, ?_⟩; first | trivial | rfl | exact sb.code)
-      · simp only [Post]; exact push_cast _ _
+        (refine ⟨_, List.mem_cons_of_mem _ (List.mem_singleton.mpr rfl), match_of_sameBut sb _ (by simp only []; omega) (by simp only [skOfFrame]; omega) rfl rfl rfl rfl, ?_⟩; fin_sb sb)
+      · simp only [Post]; exact push_cast _ _ (by room)
     · simp only [Post]
-      (refine ⟨_, List.mem_cons_self, match_of_sameBut (sameBut_refl _) _ rfl rfl rfl rfl rfl rfl, ?_⟩; first | trivial | rfl | exact (sameBut_refl _).code)
+      (refine ⟨_, List.mem_cons_self, match_of_sameBut (sameBut_refl _) _ rfl rfl rfl rfl rfl rfl, ?_⟩; fin_sb (sameBut_refl _))
 
 
 theorem exec_blockPush : Goal sub g f wod dc .blockPush := by
-  intro succs hs
+  intro hR hlt succs hs
   have := sstep_blockPush hs; subst this
   simp only [exec]
   split
   · simp only [Post]; ns_leaf
   · simp only [Post]
-    (refine ⟨_, List.mem_singleton.mpr rfl, match_of_sameBut (sameBut_refl _) _ rfl rfl rfl rfl rfl rfl, ?_⟩; first | trivial | rfl | exact (sameBut_refl _).code)
+    (refine ⟨_, List.mem_singleton.mpr rfl, match_of_sameBut (sameBut_refl _) _ rfl rfl rfl rfl rfl rfl, ?_⟩; fin_sb (sameBut_refl _))
 
 theorem exec_fstrPush : Goal sub g f wod dc .fstrPush := by
-  intro succs hs
+  intro hR hlt succs hs
   have := sstep_fstrPush hs; subst this
   simp only [exec]
   split
   · simp only [Post]; ns_leaf
   · simp only [Post]
-    (refine ⟨_, List.mem_singleton.mpr rfl, match_of_sameBut (sameBut_refl _) _ rfl rfl rfl rfl rfl rfl, ?_⟩; first | trivial | rfl | exact (sameBut_refl _).code)
+    (refine ⟨_, List.mem_singleton.mpr rfl, match_of_sameBut (sameBut_refl _) _ rfl rfl rfl rfl rfl rfl, ?_⟩; fin_sb (sameBut_refl _))
 
 theorem exec_blockPop : Goal sub g f wod dc .blockPop := by
-  intro succs hs
+  intro hR hlt succs hs
   obtain ⟨t, r, hb, rfl⟩ := sstep_blockPop hs
   simp only [skOfFrame] at hb
+  have ht : t < f.stack.size := by rw [hR.size]; exact hR.blocks t (by rw [hb]; exact List.mem_cons_self)
   simp only [exec, hb]
   split
   · simp only [Post]
     have sb := push_ok_inv ‹Frame.push _ _ = Res.ok _›
-    (refine ⟨_, List.mem_singleton.mpr rfl, match_of_sameBut sb _ rfl rfl rfl rfl rfl rfl, ?_⟩; first | trivial | rfl | exact sb.code)
-  · simp only [Post]; exact push_cast _ _
+    (refine ⟨_, List.mem_singleton.mpr rfl, match_of_sameBut sb _ rfl rfl rfl rfl rfl rfl, ?_⟩; fin_sb sb)
+  · simp only [Post]; exact push_cast _ _ (by room)
 
 theorem exec_fstrPop : Goal sub g f wod dc .fstrPop := by
-  intro succs hs
+  intro hR hlt succs hs
   obtain ⟨t, r, hb, hc, rfl⟩ := sstep_fstrPop hs
   simp only [skOfFrame] at hb hc
+  have ht : t < f.stack.size := by rw [hR.size]; exact hR.fblocks t (by rw [hb]; exact List.mem_cons_self)
   simp only [exec, hb]
   split
   · rename_i hne
@@ -199,37 +201,37 @@ theorem exec_fstrPop : Goal sub g f wod dc .fstrPop := by
     split
     · simp only [Post]
       have sb := push_ok_inv ‹Frame.push _ _ = Res.ok _›
-      (refine ⟨_, List.mem_singleton.mpr rfl, match_of_sameBut sb _ rfl rfl rfl rfl rfl rfl, ?_⟩; first | trivial | rfl | exact sb.code)
-    · simp only [Post]; exact push_cast _ _
+      (refine ⟨_, List.mem_singleton.mpr rfl, match_of_sameBut sb _ rfl rfl rfl rfl rfl rfl, ?_⟩; fin_sb sb)
+    · simp only [Post]; exact push_cast _ _ (by room)
   · split
     · simp only [Post]
       have sb := push_ok_inv ‹Frame.push _ _ = Res.ok _›
-      (refine ⟨_, List.mem_singleton.mpr rfl, match_of_sameBut sb _ rfl rfl rfl rfl rfl rfl, ?_⟩; first | trivial | rfl | exact sb.code)
-    · simp only [Post]; exact push_cast _ _
+      (refine ⟨_, List.mem_singleton.mpr rfl, match_of_sameBut sb _ rfl rfl rfl rfl rfl rfl, ?_⟩; fin_sb sb)
+    · simp only [Post]; exact push_cast _ _ (by room)
 
 theorem exec_diceInit : Goal sub g f wod dc .diceInit := by
-  intro succs hs
+  intro hR hlt succs hs
   have := sstep_diceInit hs; subst this
   simp only [exec, Post]
-  (refine ⟨_, List.mem_singleton.mpr rfl, match_of_sameBut (sameBut_refl _) _ rfl rfl rfl rfl rfl rfl, ?_⟩; first | trivial | rfl | exact (sameBut_refl _).code)
+  (refine ⟨_, List.mem_singleton.mpr rfl, match_of_sameBut (sameBut_refl _) _ rfl rfl rfl rfl rfl rfl, ?_⟩; fin_sb (sameBut_refl _))
 
 theorem exec_markDetail (b e : Int) : Goal sub g f wod dc (.markDetail b e) := by
-  intro succs hs
+  intro hR hlt succs hs
   have := sstep_markDetail hs; subst this
   simp only [exec, Post]
-  (refine ⟨_, List.mem_singleton.mpr rfl, match_of_sameBut (sameBut_refl _) _ rfl rfl rfl rfl rfl (by simp [skOfFrame]), ?_⟩; first | trivial | rfl | exact (sameBut_refl _).code)
+  (refine ⟨_, List.mem_singleton.mpr rfl, match_of_sameBut (sameBut_refl _) _ rfl rfl rfl rfl rfl (by simp [skOfFrame]), ?_⟩; fin_sb (sameBut_refl _))
 
 theorem exec_wodInit : Goal sub g f wod dc .wodInit := by
-  intro succs hs
+  intro hR hlt succs hs
   have := sstep_wodInit hs; subst this
   simp only [exec, Post]
-  (refine ⟨_, List.mem_singleton.mpr rfl, match_of_sameBut (sameBut_refl _) _ rfl rfl rfl rfl rfl rfl, ?_⟩; first | trivial | rfl | exact (sameBut_refl _).code)
+  (refine ⟨_, List.mem_singleton.mpr rfl, match_of_sameBut (sameBut_refl _) _ rfl rfl rfl rfl rfl rfl, ?_⟩; fin_sb (sameBut_refl _))
 
 theorem exec_dcInit : Goal sub g f wod dc .dcInit := by
-  intro succs hs
+  intro hR hlt succs hs
   have := sstep_dcInit hs; subst this
   simp only [exec, Post]
-  (refine ⟨_, List.mem_singleton.mpr rfl, match_of_sameBut (sameBut_refl _) _ rfl rfl rfl rfl rfl rfl, ?_⟩; first | trivial | rfl | exact (sameBut_refl _).code)
+  (refine ⟨_, List.mem_singleton.mpr rfl, match_of_sameBut (sameBut_refl _) _ rfl rfl rfl rfl rfl rfl, ?_⟩; fin_sb (sameBut_refl _))
 
 
 theorem setHeadDice_some {F f2 : Frame} {fn : DiceState → DiceState} (h : setHeadDice F fn = some f2) : SameBut F f2 F.top := by
@@ -238,7 +240,7 @@ theorem setHeadDice_some {F f2 : Frame} {fn : DiceState → DiceState} (h : setH
   · cases h
   · rename_i d r hd
     simp at h; subst h
-    exact ⟨rfl, rfl, rfl, rfl, by simp [hd], rfl, rfl, rfl, rfl⟩
+    exact ⟨rfl, rfl, rfl, rfl, by simp [hd], rfl, rfl, rfl, rfl, rfl⟩
 
 theorem setHeadDice_none {F : Frame} {fn : DiceState → DiceState} (h : setHeadDice F fn = none) : F.dice.length = 0 := by
   unfold setHeadDice at h
@@ -265,7 +267,7 @@ theorem updLast_none {ds : List Span} {fn : Span → Span} (h : updLast ds fn = 
 
 set_option hygiene false in
 macro "diceSet_tac" : tactic => `(tactic| (
-  intro succs hs
+  intro hR hlt succs hs
   obtain ⟨htop, hdice, rfl⟩ := sstep_diceSet hs
   simp only [skOfFrame] at htop hdice
   simp only [exec]
@@ -275,7 +277,7 @@ macro "diceSet_tac" : tactic => `(tactic| (
   all_goals first
     | ns_leaf
     | (have sb := setHeadDice_some ‹setHeadDice _ _ = some _›
-       (refine ⟨_, List.mem_singleton.mpr rfl, match_of_sameBut sb _ rfl rfl rfl rfl rfl rfl, ?_⟩; first | trivial | rfl | exact sb.code))
+       (refine ⟨_, List.mem_singleton.mpr rfl, match_of_sameBut sb _ rfl rfl rfl rfl rfl rfl, ?_⟩; fin_sb sb))
     | (have h0 := setHeadDice_none ‹setHeadDice _ _ = none›
        (try simp only [] at h0); omega)))
 
@@ -289,7 +291,7 @@ theorem exec_diceSetMax : Goal sub g f wod dc .diceSetMax := by diceSet_tac
 
 
 theorem exec_dice : Goal sub g f wod dc .dice := by
-  intro succs hs
+  intro hR hlt succs hs
   obtain ⟨htop, hdice, hdet, rfl⟩ := sstep_dice hs
   simp only [skOfFrame] at htop hdice hdet
   simp only [exec]
@@ -302,16 +304,16 @@ theorem exec_dice : Goal sub g f wod dc .dice := by
     all_goals simp only [Post]
     all_goals first
       | ns_leaf
-      | exact push_cast _ _
+      | exact push_cast _ _ (by room)
       | (have h0 := updLast_none ‹updLast _ _ = none›
          (try simp only [] at h0); omega)
       | (have hl := updLast_some ‹updLast _ _ = some _›
          have sb := push_ok_inv ‹Frame.push _ _ = Res.ok _›
          (try simp only [] at hl)
-         (refine ⟨_, List.mem_singleton.mpr rfl, match_of_sameBut sb _ rfl (by arith) rfl rfl (by simp [skOfFrame, hd]) (by arith), ?_⟩; first | trivial | rfl | exact sb.code))
+         (refine ⟨_, List.mem_singleton.mpr rfl, match_of_sameBut sb _ rfl (by arith) rfl rfl (by simp [skOfFrame, hd]) (by arith), ?_⟩; fin_sb sb))
 
 theorem exec_diceFate : Goal sub g f wod dc .diceFate := by
-  intro succs hs
+  intro hR hlt succs hs
   obtain ⟨htop, hdet, rfl⟩ := sstep_detUse hs
   simp only [skOfFrame] at htop hdet
   simp only [exec]
@@ -319,17 +321,17 @@ theorem exec_diceFate : Goal sub g f wod dc .diceFate := by
   all_goals simp only [Post]
   all_goals first
     | ns_leaf
-    | exact push_cast _ _
+    | exact push_cast _ _ (by room)
     | (have h0 := updLast_none ‹updLast _ _ = none›
        (try simp only [] at h0); omega)
     | (have hl := updLast_some ‹updLast _ _ = some _›
        have sb := push_ok_inv ‹Frame.push _ _ = Res.ok _›
        (try simp only [] at hl)
-       (refine ⟨_, List.mem_singleton.mpr rfl, match_of_sameBut sb _ rfl (by arith) rfl rfl rfl (by arith), ?_⟩; first | trivial | rfl | exact sb.code))
+       (refine ⟨_, List.mem_singleton.mpr rfl, match_of_sameBut sb _ rfl (by arith) rfl rfl rfl (by arith), ?_⟩; fin_sb sb))
 
 set_option hygiene false in
 macro "coc_tac" : tactic => `(tactic| (
-  intro succs hs
+  intro hR hlt succs hs
   obtain ⟨htop, hdet, rfl⟩ := sstep_detUse hs
   simp only [skOfFrame] at htop hdet
   simp only [exec]
@@ -338,13 +340,13 @@ macro "coc_tac" : tactic => `(tactic| (
   all_goals simp only [Post]
   all_goals first
     | ns_leaf
-    | exact push_cast _ _
+    | exact push_cast _ _ (by room)
     | (have h0 := updLast_none ‹updLast _ _ = none›
        (try simp only [] at h0); omega)
     | (have hl := updLast_some ‹updLast _ _ = some _›
        have sb := push_ok_inv ‹Frame.push _ _ = Res.ok _›
        (try simp only [] at hl)
-       (refine ⟨_, List.mem_singleton.mpr rfl, match_of_sameBut sb _ rfl (by arith) rfl rfl rfl (by arith), ?_⟩; first | trivial | rfl | exact sb.code))))
+       (refine ⟨_, List.mem_singleton.mpr rfl, match_of_sameBut sb _ rfl (by arith) rfl rfl rfl (by arith), ?_⟩; fin_sb sb))))
 
 theorem exec_cocBonus : Goal sub g f wod dc .cocBonus := by coc_tac
 theorem exec_cocPenalty : Goal sub g f wod dc .cocPenalty := by coc_tac
@@ -361,7 +363,7 @@ theorem updLast_getD_len (ds : List Span) (fn : Span → Span) : ((updLast ds fn
   | some d => simp [updLast_some h]
 
 theorem exec_ldD (n : String) : Goal sub g f wod dc (.ldD n) := by
-  intro succs hs
+  intro hR hlt succs hs
   obtain ⟨htop, hdet, rfl⟩ := sstep_detUse hs
   simp only [skOfFrame] at htop hdet
   simp only [exec]
@@ -374,7 +376,7 @@ theorem exec_ldD (n : String) : Goal sub g f wod dc (.ldD n) := by
        (try simp only [] at h0); omega)
     | (have hl := updLast_some ‹updLast _ _ = some _›
        have sb := push_ok_inv ‹Frame.push _ _ = Res.ok _›
-       (refine ⟨_, List.mem_singleton.mpr rfl, match_of_sameBut sb _ rfl (by arith) rfl rfl rfl (by simp only [skOfFrame, updLast_getD_len]; omega), ?_⟩; first | trivial | rfl | exact sb.code))
+       (refine ⟨_, List.mem_singleton.mpr rfl, match_of_sameBut sb _ rfl (by arith) rfl rfl rfl (by simp only [skOfFrame, updLast_getD_len]; omega), ?_⟩; fin_sb sb))
 
 omit hsub in
 theorem getLast?_none_len {α} {l : List α} (h : l.getLast? = none) : l.length = 0 := by
@@ -383,7 +385,7 @@ theorem getLast?_none_len {α} {l : List α} (h : l.getLast? = none) : l.length 
   | cons a t => simp at h
 
 theorem exec_pushDefExpr : Goal sub g f wod dc .pushDefExpr := by
-  intro succs hs
+  intro hR hlt succs hs
   obtain ⟨hdet, hdice, rfl⟩ := sstep_defExpr hs
   simp only [skOfFrame] at hdet hdice
   simp only [exec]
@@ -402,19 +404,19 @@ theorem exec_pushDefExpr : Goal sub g f wod dc .pushDefExpr := by
         | (have h0 : f1.dice.length = 0 := by rw [‹f1.dice = []›]; rfl
            omega)
         | (have h0 := updLast_none ‹updLast _ _ = none›; omega)
-        | (refine ⟨_, List.mem_singleton.mpr rfl, match_of_sameBut sb _ rfl (by arith) rfl rfl rfl rfl, ?_⟩; first | trivial | rfl | exact sb.code)
+        | (refine ⟨_, List.mem_singleton.mpr rfl, match_of_sameBut sb _ rfl (by arith) rfl rfl rfl rfl, ?_⟩; fin_sb sb)
         | (have hl := updLast_some ‹updLast _ _ = some _›
            refine ⟨_, List.mem_singleton.mpr rfl, ?_, ?_⟩
            · apply match_of_sameBut (F := { f with pc := f.pc + 1 }) (t := f.top + 1)
-             · exact ⟨sb.pc, sb.top, sb.blocks, sb.fblocks, sb.dice, (by show _ = f.details.length; (try simp only [] at hl); rw [hl]; exact hd1), sb.code, sb.wodPool, sb.dcPool⟩
+             · exact ⟨sb.pc, sb.top, sb.blocks, sb.fblocks, sb.dice, (by show _ = f.details.length; (try simp only [] at hl); rw [hl]; exact hd1), sb.code, sb.wodPool, sb.dcPool, sb.ssize⟩
              all_goals arith
-           · first | trivial | exact sb.code)
-    · simp only [Post]; exact push_cast _ _
+           · first | exact ⟨sb.code, sb.ssize⟩ | exact sb.code | exact sb.ssize | trivial)
+    · simp only [Post]; exact push_cast _ _ (by room)
 
 
 set_option hygiene false in
 macro "poolset_tac" inv:term : tactic => `(tactic| (
-  intro succs hs
+  intro hR hlt succs hs
   obtain ⟨htop, rfl⟩ := $inv hs
   simp only [skOfFrame] at htop
   simp only [exec]
@@ -423,7 +425,7 @@ macro "poolset_tac" inv:term : tactic => `(tactic| (
   all_goals simp only [Post]
   all_goals first
     | ns_leaf
-    | (refine ⟨_, List.mem_singleton.mpr rfl, match_of_sameBut (sameBut_refl _) _ rfl (by arith) rfl rfl rfl rfl, ?_⟩; first | trivial | rfl | exact (sameBut_refl _).code)))
+    | (refine ⟨_, List.mem_singleton.mpr rfl, match_of_sameBut (sameBut_refl _) _ rfl (by arith) rfl rfl rfl rfl, ?_⟩; fin_sb (sameBut_refl _))))
 
 theorem exec_wodPool : Goal sub g f wod dc .wodPool := by poolset_tac sstep_wodSet
 theorem exec_wodPoints : Goal sub g f wod dc .wodPoints := by poolset_tac sstep_wodSet
@@ -434,7 +436,7 @@ theorem exec_dcPoints : Goal sub g f wod dc .dcPoints := by poolset_tac sstep_dc
 
 set_option hygiene false in
 macro "poolroll_tac" inv:term : tactic => `(tactic| (
-  intro succs hs
+  intro hR hlt succs hs
   obtain ⟨htop, hdet, rfl⟩ := $inv hs
   simp only [skOfFrame] at htop hdet
   simp only [exec]
@@ -443,13 +445,13 @@ macro "poolroll_tac" inv:term : tactic => `(tactic| (
   all_goals simp only [Post]
   all_goals first
     | ns_leaf
-    | exact push_cast _ _
+    | exact push_cast _ _ (by room)
     | (have h0 := updLast_none ‹updLast _ _ = none›
        (try simp only [] at h0); omega)
     | (have hl := updLast_some ‹updLast _ _ = some _›
        have sb := push_ok_inv ‹Frame.push _ _ = Res.ok _›
        (try simp only [] at hl)
-       (refine ⟨_, List.mem_singleton.mpr rfl, match_of_sameBut sb _ rfl (by arith) rfl rfl rfl (by arith), ?_⟩; first | trivial | rfl | exact sb.code))))
+       (refine ⟨_, List.mem_singleton.mpr rfl, match_of_sameBut sb _ rfl (by arith) rfl rfl rfl (by arith), ?_⟩; fin_sb sb))))
 
 theorem exec_diceWod : Goal sub g f wod dc .diceWod := by poolroll_tac sstep_wodRoll
 theorem exec_diceDC : Goal sub g f wod dc .diceDC := by poolroll_tac sstep_dcRoll
@@ -458,37 +460,39 @@ theorem exec_diceDC : Goal sub g f wod dc .diceDC := by poolroll_tac sstep_dcRol
 omit hsub in
 theorem SameBut.trans {a b c : Frame} {t1 t2 : Nat} (h1 : SameBut a b t1) (h2 : SameBut b c t2) : SameBut a c t2 :=
   ⟨by rw [h2.pc, h1.pc], h2.top, by rw [h2.blocks, h1.blocks], by rw [h2.fblocks, h1.fblocks], by rw [h2.dice, h1.dice],
-   by rw [h2.details, h1.details], by rw [h2.code, h1.code], by rw [h2.wodPool, h1.wodPool], by rw [h2.dcPool, h1.dcPool]⟩
+   by rw [h2.details, h1.details], by rw [h2.code, h1.code], by rw [h2.wodPool, h1.wodPool], by rw [h2.dcPool, h1.dcPool], by rw [h2.ssize, h1.ssize]⟩
 
 theorem exec_popN (n : Int) : Goal sub g f wod dc (.popN n) := by
-  intro succs hs
+  intro hR hlt succs hs
   obtain ⟨htop, rfl⟩ := sstep_simple hs
   simp only [skOfFrame] at htop
   simp only [exec]
   split
   · rename_i vs f1 hp
     obtain ⟨_, sb⟩ := popN_ok_inv hp
+    have hroom1 : f1.top < f1.stack.size := by rw [sb.top, sb.ssize]; dsimp only; omega
     simp only [Post]
-    (refine ⟨_, List.mem_singleton.mpr rfl, match_of_sameBut sb _ rfl (by arith) rfl rfl rfl rfl, ?_⟩; first | trivial | rfl | exact sb.code)
+    (refine ⟨_, List.mem_singleton.mpr rfl, match_of_sameBut sb _ rfl (by arith) rfl rfl rfl rfl, ?_⟩; fin_sb sb)
   · simp only [Post]; exact popN_cast (by simp only []; omega)
 
 theorem exec_pushArr (n : Int) : Goal sub g f wod dc (.pushArr n) := by
-  intro succs hs
+  intro hR hlt succs hs
   obtain ⟨htop, rfl⟩ := sstep_simple hs
   simp only [skOfFrame] at htop
   simp only [exec]
   split
   · rename_i vs f1 hp
     obtain ⟨_, sb⟩ := popN_ok_inv hp
+    have hroom1 : f1.top < f1.stack.size := by rw [sb.top, sb.ssize]; dsimp only; omega
     split_all
     all_goals simp only [Post]
     · have sb2 := push_ok_inv ‹Frame.push _ _ = Res.ok _›
-      (refine ⟨_, List.mem_singleton.mpr rfl, match_of_sameBut (sb.trans sb2) _ rfl (by simp only [skOfFrame, sb.top]) rfl rfl rfl rfl, ?_⟩; first | trivial | rfl | exact (sb.trans sb2).code)
-    · exact push_cast _ _
+      (refine ⟨_, List.mem_singleton.mpr rfl, match_of_sameBut (sb.trans sb2) _ rfl (by simp only [skOfFrame, sb.top]) rfl rfl rfl rfl, ?_⟩; fin_sb (sb.trans sb2))
+    · exact push_cast _ _ (by room)
   · simp only [Post]; exact popN_cast (by simp only []; omega)
 
 theorem exec_pushDict (n : Int) : Goal sub g f wod dc (.pushDict n) := by
-  intro succs hs
+  intro hR hlt succs hs
   obtain ⟨htop, rfl⟩ := sstep_simple hs
   simp only [skOfFrame] at htop
   simp only [exec]
@@ -496,38 +500,40 @@ theorem exec_pushDict (n : Int) : Goal sub g f wod dc (.pushDict n) := by
   split
   · rename_i vs f1 hp
     obtain ⟨_, sb⟩ := popN_ok_inv hp
+    have hroom1 : f1.top < f1.stack.size := by rw [sb.top, sb.ssize]; dsimp only; omega
     split_all
     all_goals simp only [Post]
     all_goals first
       | ns_leaf
-      | exact push_cast _ _
+      | exact push_cast _ _ (by room)
       | (have sb2 := push_ok_inv ‹Frame.push _ _ = Res.ok _›
-         (refine ⟨_, List.mem_singleton.mpr rfl, match_of_sameBut (sb.trans sb2) _ rfl (by simp only [skOfFrame, sb.top, e]) rfl rfl rfl rfl, ?_⟩; first | trivial | rfl | exact (sb.trans sb2).code))
+         (refine ⟨_, List.mem_singleton.mpr rfl, match_of_sameBut (sb.trans sb2) _ rfl (by simp only [skOfFrame, sb.top, e]) rfl rfl rfl rfl, ?_⟩; fin_sb (sb.trans sb2)))
   · simp only [Post]; exact popN_cast (by simp only [e]; omega)
 
 theorem exec_invoke (n : Int) : Goal sub g f wod dc (.invoke n) := by
-  intro succs hs
+  intro hR hlt succs hs
   obtain ⟨htop, rfl⟩ := sstep_simple hs
   simp only [skOfFrame] at htop
   simp only [exec]
   split
   · rename_i vs f1 hp
     obtain ⟨_, sb⟩ := popN_ok_inv hp
+    have hroom1 : f1.top < f1.stack.size := by rw [sb.top, sb.ssize]; dsimp only; omega
     have ht1 : 0 < f1.top := by rw [sb.top]; simp only []; omega
     rw [pop_eq f1 ht1]
     dsimp only
-    have sb1 : SameBut f1 { f1 with top := f1.top - 1, lastPop := .slot (f1.top - 1) } (f1.top - 1) := ⟨rfl, rfl, rfl, rfl, rfl, rfl, rfl, rfl, rfl⟩
+    have sb1 : SameBut f1 { f1 with top := f1.top - 1, lastPop := .slot (f1.top - 1) } (f1.top - 1) := ⟨rfl, rfl, rfl, rfl, rfl, rfl, rfl, rfl, rfl, rfl⟩
     split_all
     all_goals simp only [Post]
     all_goals first
       | ns_leaf
       | leaf_ns
       | (have sb2 := push_ok_inv ‹Frame.push _ _ = Res.ok _›
-         (refine ⟨_, List.mem_singleton.mpr rfl, match_of_sameBut ((sb.trans sb1).trans sb2) _ rfl (by simp only [skOfFrame, sb.top]; omega) rfl rfl rfl rfl, ?_⟩; first | trivial | rfl | exact ((sb.trans sb1).trans sb2).code))
+         (refine ⟨_, List.mem_singleton.mpr rfl, match_of_sameBut ((sb.trans sb1).trans sb2) _ rfl (by simp only [skOfFrame, sb.top]; omega) rfl rfl rfl rfl, ?_⟩; fin_sb ((sb.trans sb1).trans sb2)))
   · simp only [Post]; exact popN_cast (by simp only []; omega)
 
 theorem exec_ldFs (n : Int) : Goal sub g f wod dc (.ldFs n) := by
-  intro succs hs
+  intro hR hlt succs hs
   obtain ⟨htop, rfl⟩ := sstep_simple hs
   simp only [skOfFrame] at htop
   simp only [exec]
@@ -535,9 +541,9 @@ theorem exec_ldFs (n : Int) : Goal sub g f wod dc (.ldFs n) := by
   all_goals simp only [Post]
   all_goals first
     | ns_leaf
-    | exact push_cast _ _
+    | exact push_cast _ _ (by room)
     | (have sb2 := push_ok_inv ‹Frame.push _ _ = Res.ok _›
-       (refine ⟨_, List.mem_singleton.mpr rfl, match_of_sameBut sb2 _ rfl (by arith) rfl rfl rfl rfl, ?_⟩; first | trivial | rfl | exact sb2.code))
+       (refine ⟨_, List.mem_singleton.mpr rfl, match_of_sameBut sb2 _ rfl (by arith) rfl rfl rfl rfl, ?_⟩; fin_sb sb2))
 
 
 /-- **exec refines the skeleton**, for every instruction -/
